@@ -55,7 +55,7 @@ CHECKS = {
          "all API sequences of length <=3 (sampled length 3 in quick, plus 15000 sampled length-4 sequences with 0-8 concurrent callers in thorough) x 6 acknowledgement behaviours x 4 CONNACK behaviours x 4 terminal events x resume; for a deterministic subset every single client-side connection fault position (incl. the CONNECT) and every Session method failing at its 1st-3rd call; a slow Logger widens the send/bookkeeping window and a future whose acknowledgement the client logged as received must complete",
          "an acknowledgement of another kind carrying the live packet id is accepted as that id's acknowledgement (the client keys futures by id only); futures are polled with a retried 25 ms Wait because Wait selects randomly between a ready future and an expired timer", "2-C09"),
  "C10": ("fault_enumeration", "receiver model driven by what the client received (event log of the client boundary) compared with application callback invocations and acknowledgements written; QoS 0 marker fence through the client's single processor; completion phase retransmitting PUBREL",
-         "all scripted-broker scripts of length <=3 (quick) / <=4 plus sampled length 5 with 3 ids (thorough) over {PUBLISH q2 (dup), PUBLISH q1, PUBLISH q0, PUBREL, drop+resume} x callback plans {nil, error at 1st/2nd/3rd invocation} x both callback modes x every single client-side send fault (each acknowledgement, before/after); all scripts of length <=3 over QoS 1 deliveries with and without the dup flag",
+         "all scripted-broker scripts of length <=3 (quick) / <=4 plus sampled length 5 with 3 ids (thorough) over {PUBLISH q2 (dup), PUBLISH q1, PUBLISH q0, PUBREL, drop+resume} x callback plans {nil, error at 1st/2nd/3rd invocation} x both callback modes x every single client-side send fault (each acknowledgement, before/after); all scripts of length <=3 over QoS 1 deliveries with and without the dup flag; scripts of length <=3 (quick) / <=4 (thorough) mixing the inbound QoS 2 handshakes with the application's own Subscribe / Unsubscribe / Publish flows under coinciding packet ids",
          "exactly-once is asserted in the default mode only; rejected deliveries are not counted; what the client received is taken from its connection's receive log (same goroutine as processing)", "2-C10"),
  "C19": ("fault_enumeration", "reassembly of (sender, seq, checksum) payloads at the peer, parsing of the recorded wire bytes into whole sent packets, logical-clock order for 'Send returned nil before Close was called', instrumented carrier with call log and fault injection, bounded-call guards with goroutine-profile confirmation, Go race detector",
          "250/6000 send-and-close cases on the in-memory wire, 40/600 on TCP and 30/400 on WebSocket loopback (1-16 senders, async/sync patterns, flush delays 0-50 ms, close after a PRNG number of sends), every k for each carrier call kind (Read/Write/Close/SetReadDeadline) x 2 flush delays, read timeouts 10-30 ms on all three carriers; 12/180 runs with 1-3 senders blocked on a non-reading peer when the receive side fails (timeout, garbage, oversized packet)",
